@@ -35,18 +35,40 @@ RENDER_CALLS = {'str', 'repr', 'format', 'print'}
 
 
 class Site:
-    def __init__(self, relpath, func, kind, node, src):
+    def __init__(self, relpath, func, kind, node, src, setnames=(), localnames=()):
         self.relpath, self.func, self.kind = relpath, func, kind
         self.text = ' '.join((ast.get_source_segment(src, node) or ast.dump(node)).split())[:160]
+        # normal form: the same expression with every local name replaced by its ROLE and its order of first occurrence -- `S0, S1..`
+        # for set-typed locals, `v0, v1..` for the other locals and parameters (an alpha-renaming that keeps the kind of each name);
+        # callees, attributes, globals and literals stay.  Two sites with the same normal form are the same syntactic situation
+        # (which set-typed value reaches which position of which consumer), whatever the locals are called.
+        import copy
+        n2 = copy.deepcopy(node)
+        ren = {}
+        names = sorted((x for x in ast.walk(n2) if isinstance(x, ast.Name)), key=lambda x: (x.lineno, x.col_offset))
+        for x in names:
+            if x.id in setnames or x.id in localnames:
+                kind_ = 'S' if x.id in setnames else 'v'
+                if x.id not in ren:
+                    ren[x.id] = '%s%d' % (kind_, sum(1 for r in ren.values() if r[0] == kind_))
+        for x in names:
+            x.id = ren.get(x.id, x.id)
+        try:
+            self.norm = ' '.join(ast.unparse(n2).split())[:160]
+        except Exception:
+            self.norm = self.text
         v = getattr(node, 'value', None)
         if kind == 'escape' and isinstance(node, ast.Return) and isinstance(v, ast.Call) and isinstance(v.func, ast.Name) and not v.keywords:
             # `return frozenset(X)` / `return set(X)` / `return cls(X)` with cls a local alias of a set constructor: one key for all
             # spellings -- what escapes is "a new set of the items of X"
             args = ', '.join(' '.join((ast.get_source_segment(src, a) or ast.dump(a)).split()) for a in v.args)
-            self.text = ('return <new set of> ' + args)[:160]
+            self.text = self.norm = ('return <new set of> ' + args)[:160]
 
     def key(self):
         return '%s:%s:%s:%s' % (self.relpath, self.func, self.kind, self.text)
+
+    def norm_key(self):
+        return '%s:%s:%s:%s' % (self.relpath, self.func, self.kind, self.norm)
 
     def __repr__(self):
         return self.key()
@@ -96,7 +118,15 @@ class FuncScan(ast.NodeVisitor):
         return False
 
     def report(self, kind, node):
-        self.sites.append(Site(self.relpath, self.qual, kind, node, self.src))
+        fn = self.fn
+        local = set()
+        if isinstance(fn, (ast.FunctionDef, ast.AsyncFunctionDef)):
+            a = fn.args
+            local |= {x.arg for x in a.posonlyargs + a.args + a.kwonlyargs} | {x.arg for x in (a.vararg, a.kwarg) if x is not None}
+        for n in ast.walk(fn):
+            if isinstance(n, ast.Name) and isinstance(n.ctx, (ast.Store, ast.Del)):
+                local.add(n.id)
+        self.sites.append(Site(self.relpath, self.qual, kind, node, self.src, setnames=self.setnames, localnames=local))
 
     def scan(self):
         fn = self.fn
@@ -222,7 +252,25 @@ def scan_repo(repo):
 
 if __name__ == '__main__':
     import sys
+    if len(sys.argv) > 1 and sys.argv[1] == '--write-norms':
+        # maintainer only, on the UNCHANGED tree: record the normal form of every allowlisted site next to its text
+        import json
+        p = os.path.join(os.path.dirname(os.path.dirname(os.path.abspath(__file__))), 'checks', 'order_sites.json')
+        with open(p) as fh:
+            doc = json.load(fh)
+        sites, n = scan_repo(sys.argv[2] if len(sys.argv) > 2 else '/repo')
+        norms = {}
+        for s in sites:
+            norms.setdefault(s.key(), s.norm_key())
+        for entry in doc['sites']:
+            if entry['site'] in norms:
+                entry['norm'] = norms[entry['site']]
+        with open(p, 'w') as fh:
+            json.dump(doc, fh, indent=1)
+            fh.write('\n')
+        print(sum(1 for e in doc['sites'] if 'norm' in e), 'of', len(doc['sites']), 'allowlisted sites have a normal form')
+        sys.exit(0)
     sites, n = scan_repo(sys.argv[1] if len(sys.argv) > 1 else '/repo')
     for s in sites:
-        print(s.key())
+        print(s.key(), '  ~  ', s.norm)
     print(len(sites), 'sites in', n, 'files')
